@@ -93,6 +93,11 @@ pub fn run_batch_sharded<F: Fn(usize) -> IoPlan + Sync>(n: usize, workers: usize
                         break;
                     }
                     let hi = (lo + CHUNK).min(n);
+                    if shard.is_some() {
+                        if let Some((path, batch)) = CUR_MARKER.lock().unwrap().as_ref() {
+                            let _ = std::fs::write(path, format!("{} {}", batch, hi - 1));
+                        }
+                    }
                     if let Some(d) = deadline {
                         if Instant::now() >= d {
                             stop.store(true, Ordering::Relaxed);
@@ -170,6 +175,12 @@ pub fn run_batch_sharded<F: Fn(usize) -> IoPlan + Sync>(n: usize, workers: usize
 }
 
 pub const CHUNK: usize = 32;
+
+pub const CRASH_INVARIANT: &str = "serdes/no-crash-every-call-returns";
+
+/// (path, batch name): a shard records the chunk it is about to execute, so that the driver can
+/// name the plans a process killed by a signal was executing
+pub static CUR_MARKER: Mutex<Option<(String, String)>> = Mutex::new(None);
 
 /// execute the plans one after the other on one brand-new OS thread
 pub fn execute_chunk(plans: &[IoPlan]) -> Vec<RunResult> {
